@@ -166,7 +166,7 @@ func (u HTTPUpgrader) Upgrade(r *http.Request, w http.ResponseWriter) (conn net.
 	var nonce string
 	if r.Method != http.MethodGet {
 		err = ErrHandshakeBadMethod
-	} else if r.ProtoMajor < 1 || (r.ProtoMajor == 1 && r.ProtoMinor < 1) {
+	} else if r.ProtoMajor != 1 || r.ProtoMinor < 1 {
 		err = ErrHandshakeBadProtocol
 	} else if r.Host == "" {
 		err = ErrHandshakeBadHost
